@@ -863,6 +863,26 @@ class Admission:
             self.flag.add("limit")
             run.violate("C08.ingest-limit", "ingest-pool-above-limit",
                         {"on_ingest": ning})
+        # a machine with a live ingest activation (call log) is held in the
+        # ingest pool for as long as that activation lasts
+        if "held" not in self.flag:
+            ing_ids = None
+            for mid, recs in run.probe.live_alloc.items():
+                # (only strictly inside the observation's duration: the
+                # order of releases within the final instant is free)
+                if recs and any(r["ingest"] and sim.env.now + EPS < r["t0"]
+                                + self.info["obs"][parse_tid(r["task"])[0]][
+                                    "dur"] for r in recs):
+                    if ing_ids is None:
+                        ing_ids = {m.id for m in pools(sim)['ingest']}
+                    if mid not in ing_ids:
+                        self.flag.add("held")
+                        run.violate("C08.ingest-demand-held",
+                                    "machine-left-ingest-pool-during-ingest",
+                                    {"machine": mid, "t": sim.env.now,
+                                     "task": [r["task"] for r in recs
+                                              if r["ingest"]][0]})
+                        break
         for o in tel.observations:
             s = self.status_seq.setdefault(o.name, ["WAITING"])
             v = o.status.value
